@@ -991,4 +991,83 @@ example : sumSq ((exG 0 0 0).residualAt [polyFn] [0, 0, 0]) = (1 + 9) + (1 + 36)
   rw [cost_is_sum_over_datasets [polyFn] (exG 0 0 0) (by decide +kernel) ex_condInj]
   decide +kernel
 
+/-! ## The Jacobian the fit hands to its optimiser -/
+
+/-- **jacobian_entry_chain_rule (one row).** In the row the code builds for a sample of a dataset — a zero row of the
+    width of the table, `np.subtract.at(row, p_indices, sensitivities[p_external])` — the column of the global parameter
+    `n` holds minus the SUM, over all model parameters the dataset maps to the name `n` (one term per path: none, one,
+    or several), of their local sensitivities; in particular 0 for a parameter the dataset does not use. -/
+theorem scatter_entry_chain_rule (tr : List (String × Target)) (uniq : List String) (h : NamesIn tr uniq)
+    (sens : List Rat) (n : String) (hn : n ∈ uniq) :
+    (scatterRowSum (mkCondition tr uniq) (List.replicate uniq.length 0) sens).getD (uniq.idxOf n) 0 =
+      -((tr.zipIdx.filter fun ek => ek.1.2 = .name n).map fun ek => sens.getD ek.2 0).sum := by
+  rw [scatterRowSum_eq_fold tr uniq h, foldl_subAt_getD _ _ _ (by
+    rw [List.length_replicate]; exact List.idxOf_lt_length_of_mem hn)]
+  unfold pathPairs
+  rw [pathPairs_column_sum tr.zipIdx uniq sens (fun ek he s hs =>
+    h ek.1 (by
+      have := List.mem_zipIdx he  -- may need adjusting
+      exact this.2.2 ▸ List.getElem_mem _) s hs) n]
+  have hz : (List.replicate uniq.length (0 : Rat)).getD (uniq.idxOf n) 0 = 0 := by
+    rw [List.getD_eq_getElem?_getD, List.getElem?_replicate]
+    split <;> rfl
+  rw [hz, zero_sub]
+
+/-- **jacobian_entry_chain_rule.** Every row of the Jacobian the fit evaluates (`Fit._calculate_jacobian`: condition
+    strings → groups → the first dataset's `Condition` → `p_indices` / `p_external` → unbuffered scatter, over all
+    models) belongs to a sample `x` of a dataset `d`, and its entry in the column of ANY global parameter `n` is minus the
+    sum, over all model parameters that `d` maps to `n`, of the model's sensitivities at `d`'s own reading of the
+    global vector. -/
+theorem jacobian_entry_chain_rule (Js : List SensFn) (F : Fit)
+    (hkeys : F.table.map (·.1) = globalNames F.models) (hinj : ∀ m ∈ F.models, CondInj m) (g : List Rat)
+    (row : List Rat) (h : row ∈ F.jacobianAt Js g) :
+    ∃ mf ∈ F.models.zip Js, ∃ d ∈ mf.1.data, ∃ x ∈ d.x, ∀ n ∈ globalNames F.models,
+      row.getD ((globalNames F.models).idxOf n) 0 =
+        -((d.trans.zipIdx.filter fun ek => ek.1.2 = .name n).map fun ek =>
+            (mf.2 (localDirect d.trans (globalNames F.models) g) (bitsToRat x)).getD ek.2 0).sum := by
+  unfold Fit.jacobianAt at h
+  simp only [List.mem_flatten] at h
+  obtain ⟨blk, hblk, hrow⟩ := h
+  obtain ⟨mf, hmf, e⟩ := mem_zipWith_zip _ _ _ _ hblk
+  subst e
+  have hm : mf.1 ∈ F.models := (List.of_mem_zip hmf).1
+  rw [hkeys] at hrow
+  have hin := fun d hd => namesIn_globalNames F.models mf.1 hm d hd
+  obtain ⟨d, hd, x, hx, rfl⟩ := mem_model_jacobian mf.2 mf.1 _ (hinj _ hm) hin g row hrow
+  exact ⟨mf, hmf, d, hd, x, hx, fun n hn => scatter_entry_chain_rule d.trans _ (hin d hd) _ n hn⟩
+
+/-- …in particular the column of a parameter the dataset does not use (another dataset's own, renamed parameter) is
+    zero in all rows of that dataset: dataset-specific parameters are independent to first order too. -/
+theorem unused_parameter_column_zero (tr : List (String × Target)) (uniq : List String) (h : NamesIn tr uniq)
+    (sens : List Rat) (n : String) (hn : n ∈ uniq) (hun : ∀ e ∈ tr, e.2 ≠ .name n) :
+    (scatterRowSum (mkCondition tr uniq) (List.replicate uniq.length 0) sens).getD (uniq.idxOf n) 0 = 0 := by
+  rw [scatter_entry_chain_rule tr uniq h sens n hn]
+  have : (tr.zipIdx.filter fun ek => ek.1.2 = .name n) = [] := by
+    rw [List.filter_eq_nil_iff]
+    intro ek hek
+    have hm : ek.1 ∈ tr := by
+      have := List.mem_zipIdx hek
+      exact this.2.2 ▸ List.getElem_mem _
+    simpa using hun ek.1 hm
+  rw [this]; simp
+
+/-- non-vacuity: `d2` of the worked instance (M/a shared, M/b → M/b2) at x = 1: row (−1, 0, −1) over (M/a, M/b, M/b2);
+    and a dataset that maps BOTH model parameters to one name gets the sum of both sensitivities in that column -/
+example :
+    (exG 0 0 0).jacobianAt [polySens] [0, 0, 0] = [[-1, 0, 0], [-1, -1, 0], [-1, 0, 0], [-1, 0, -1]] ∧
+    scatterRowSum (mkCondition [("M/a", .name "x"), ("M/b", .name "x")] ["x"]) [0] (polySens [0, 0] 3) = [-4] := by
+  decide +kernel
+
+/-- The Jacobian the driver answers for the tie (`c14.fjac`, as-is variant) IS the Jacobian the theorems are about,
+    with the sensitivities of the polynomial toy for every model. -/
+theorem jacobianV_eq (F : Fit) (g : List Rat) :
+    F.jacobianV false g = F.jacobianAt (F.models.map fun _ => polySens) g := by
+  unfold Fit.jacobianV Fit.jacobianAt
+  simp only [condsVariant, Bool.false_eq_true, ↓reduceIte, ModelData.jacobian, List.length_map]
+  congr 1
+  generalize F.models = ms
+  induction ms with
+  | nil => rfl
+  | cons m ms ih => simp only [List.map_cons, List.zipWith_cons_cons, ih]
+
 end Verif.C14
